@@ -6,6 +6,7 @@ Driver glue for C53.  The log's files travel as `<index>=<content hex>` (`0` = t
 `.` = no file.
   `C53 run <rotateLength> <maxRotatedFiles|~> <files> <proc>/<proc>/…`
       proc = `<ops>@<cut>`; ops = `;`-joined `w:<bytes written>:<len() of the argument>` | `r` (reopen), `.` = none;
+      | `f` (a write refused by the encoder) | `ro1` / `ro0` (write permission taken away / given back);
       cut = `k:p` (counted from the first primitive of the process, the `_openFile` of `__init__` included) | `-`
   → the files after the last process.
 -/
@@ -28,16 +29,19 @@ def showFiles (fs : Fs) : String :=
   if idx.isEmpty then "." else
   ",".intercalate (idx.map fun i => toString i ++ "=" ++ hex ((get fs (rot i)).getD []))
 
-def readOp (s : String) : Option Op :=
+def readOp (s : String) : Option XOp :=
   match s.splitOn ":" with
   | ["w", d, n] => do
       let d ← unhex d
       let n ← n.toNat?
-      pure (Op.write d n)
-  | ["r"] => some Op.reopen
+      pure (.op (Op.write d n))
+  | ["r"] => some (.op Op.reopen)
+  | ["f"] => some .fail
+  | ["ro1"] => some (.perm true)
+  | ["ro0"] => some (.perm false)
   | _ => none
 
-def readProc (s : String) : Option (List Op × Option (Nat × Nat)) :=
+def readProc (s : String) : Option (List XOp × Option (Nat × Nat)) :=
   match s.splitOn "@" with
   | [ops, cut] => do
       let ops ← if ops = "." then some [] else (ops.splitOn ";").mapM readOp
@@ -46,18 +50,18 @@ def readProc (s : String) : Option (List Op × Option (Nat × Nat)) :=
   | _ => none
 
 /-- one process: `LogFile(...)` (`_openFile`), then the ops; killed at the cut -/
-def runProc (cfg : Cfg) (fs0 : Fs) (ops : List Op) (cut : Option (Nat × Nat)) : Fs :=
+def runProc (cfg : Cfg) (fs0 : Fs) (ops : List XOp) (cut : Option (Nat × Nat)) : Fs :=
   let limit : Nat := match cut with | none => 1000000000 | some (k, _) => k
   let p : Nat := match cut with | none => 0 | some (_, p) => p
   let (ot, size0) := openFile fs0
   if limit < ot.length then crashAt ot limit p fs0 else
-  let rec go (fs : Fs) (size done : Nat) : List Op → Fs
+  let rec go (fs : Fs) (size done : Nat) (ro : Bool) : List XOp → Fs
     | [] => fs
     | op :: rest =>
-      let (tr, size') := opTrace cfg size fs op
+      let (tr, size', ro') := xopTrace cfg size ro fs op
       if limit < done + tr.length then crashAt tr (limit - done) p fs
-      else go (run tr fs) size' (done + tr.length) rest
-  go (run ot fs0) size0 ot.length ops
+      else go (run tr fs) size' (done + tr.length) ro' rest
+  go (run ot fs0) size0 ot.length false ops
 
 def handle (args : List String) : String :=
   match args with
